@@ -157,6 +157,13 @@ def gen_calls(tier, rng):
         calls.append(("VALSTR", {"n": k}))
     for t in ["12", " 12", "12 ", "-5", "+7", "  -  3", "12abc", "abc", "1 2", "007"]:
         calls.append(("VAL", {"s": [ord(c) for c in t]}))
+    # white space that is not the blank, at both ends and mixed with blanks: the trims take blanks only
+    for w in (9, 11, 12, 133, 160):
+        for core in ([97], [32, 97, 32], []):
+            for pat in ([w], [32, w], [w, 32], [32, w, 32]):
+                st = pat + core + list(reversed(pat))
+                for fn in ("LTRIM$", "RTRIM$", "LEN", "UCASE$"):
+                    calls.append((fn, {"s": st}))
     # random longer printable-ASCII strings
     nr = 4000 if tier == "thorough" else 400
     for _ in range(nr):
